@@ -1076,6 +1076,136 @@ def fam_reach(arg):
 
 
 # ----------------------------------------------------------------------------------------------------------------
+# Family messages: the MESSAGE of the contained exception (empty, multi-line, format characters, non-string args ...)
+# ----------------------------------------------------------------------------------------------------------------
+
+def _assertion():
+    try:
+        assert False  # noqa: B011  pylint: disable=condition-evals-to-constant
+    except AssertionError as exc:
+        return exc
+    return AssertionError()
+
+
+def exception_shapes():
+    """(label, factory of a fresh exception instance). str() of the first group is empty."""
+    return [
+        ('KeyError()', KeyError), ('assert False', _assertion), ('StopIteration()', StopIteration), ('MemoryError()', MemoryError),
+        ('Exception()', Exception), ("ValueError('')", lambda: ValueError('')), ('IndexError()', IndexError), ('ZeroDivisionError()', ZeroDivisionError),
+        ("ValueError('a\\nb')", lambda: ValueError('a\nb')), ("ValueError('\\n')", lambda: ValueError('\n')), ("ValueError('a\\r\\nb\\n')", lambda: ValueError('a\r\nb\n')),
+        ("ValueError('{0} %s {x} %(y)s')", lambda: ValueError('{0} %s {x} %(y)s')), ("ValueError('{')", lambda: ValueError('{')), ("ValueError('%')", lambda: ValueError('%')),
+        ("ValueError('100%d}')", lambda: ValueError('100%d}')), ("ValueError('\\\\')", lambda: ValueError('\\')), ("KeyError('k')", lambda: KeyError('k')),
+        ('ValueError(1, 2)', lambda: ValueError(1, 2)), ('ValueError(None)', lambda: ValueError(None)), ("OSError(2, 'msg')", lambda: OSError(2, 'msg')),
+        ('ValueError(b"bytes")', lambda: ValueError(b'bytes')), ("ValueError('\\u20ac \\ud83d')", lambda: ValueError('€ \ud83d')),
+        ('ValueError(100 kB)', lambda: ValueError('x' * 100000)), ('ValueArgsError', None),
+    ]
+
+
+MSG_CONFIGS = [(True, 'function'), (True, 'absent'), (True, None), (False, 'function'), ('absent', 'function')]
+MSG_REACHES = ['name', 'callback', 'script function']
+MSG_LIBRARY = "stringRepeat('abc', 1000000000000000)"     # MemoryError() at once: 3e15 bytes exceed any address space
+
+
+def msg_source(reach):
+    if reach == 'name':
+        return 'rr = hostE(1)\ndone = 1\nreturn rr\n', 'hostE(1)'
+    if reach == 'callback':
+        return 'rr = arrayIndexOf(arrayNew(1), hostE)\ndone = 1\nreturn rr\n', 'arrayIndexOf(arrayNew(1), hostE)'
+    if reach == 'library':
+        return f'rr = {MSG_LIBRARY}\ndone = 1\nreturn rr\n', MSG_LIBRARY
+    return 'function ff(aa):\n    zz = hostE(aa)\n    return arrayNew(zz)\nendfunction\nrr = ff(1)\ndone = 1\nreturn rr\n', None
+
+
+def check_messages(case, acc):
+    bs, funcs = impl()
+    shapes = exception_shapes()
+    label, factory = shapes[case['shape']] if case['shape'] >= 0 else ('library MemoryError()', None)
+    reach = MSG_REACHES[case['reach']] if case['shape'] >= 0 else 'library'
+    debug, logfn = MSG_CONFIGS[case['config']]
+    source, text = msg_source(reach)
+    if case['entry'] == 'expr' and text is None:
+        acc.pruned += 1
+        return 'does not fit'
+
+    def host_e(args, options):  # pylint: disable=unused-argument
+        if factory is None:
+            raise host_args_error()
+        raise factory()
+    logs = []
+    g = {'hostE': host_e}
+    options = {'globals': g, 'maxStatements': 1000}
+    if debug != 'absent':
+        options['debug'] = debug
+    if logfn == 'function':
+        options['logFn'] = logs.append
+    elif logfn is None:
+        options['logFn'] = None
+    if case['entry'] == 'exec':
+        out = run_guarded(lambda: bs.execute_script(bs.parse_script(source), options))
+    else:
+        for n, f in funcs.items():
+            g.setdefault(n, f)
+        options['statementCount'] = 0
+        out = run_guarded(lambda: bs.evaluate_expression(bs.parse_expression(text), options, None, False))
+    acc.evals += 1
+    case = dict(case, exception=label, reached=reach, options={'debug': repr(debug), 'logFn': repr(logfn)}, source=source if case['entry'] == 'exec' else text)
+    what = f'host function raising {label} reached by {reach} through {case["entry"]} with debug={debug!r}, logFn={logfn!r}'
+    if not check_outcome(out, case, acc, what):
+        return 'violation'
+    if out[0] != 'value':
+        acc.violation(case, 'a value (the failure is contained)', f'{out[1]} raised', f'{what}: {out[1]} escapes')
+        return 'violation'
+    res = out[1]
+    if reach == 'script function':
+        res = res[0] if isinstance(res, list) and len(res) == 1 else ('not the array the script function builds', res)
+    allowed = [None] + ([5] if factory is None and case['shape'] >= 0 else []) + ([-1] if reach == 'callback' else [])
+    if not any(res is None if a is None else (not isinstance(res, bool) and res == a) for a in allowed):
+        acc.violation(case, f'null (or a documented failure value {allowed[1:]})', f'{value_kind(res)} {label_of(res)}', f'{what}: the failed call did not evaluate to null')
+        return 'violation'
+    if case['entry'] == 'exec' and g.get('done') != 1:
+        acc.violation(case, 'the statement after the call runs (done = 1)', f'done = {g.get("done")!r}', f'{what}: execution did not continue')
+        return 'violation'
+    nfail = sum(1 for line in logs if is_failure_line(line))
+    if debug is True and logfn == 'function' and (nfail != 1 or len(logs) != 1):
+        acc.violation(case, 'exactly one call of logFn, with one failure line', [str(x)[:80] for x in logs[:3]] + [f'{len(logs)} call(s), {nfail} failure line(s)'],
+                      f'{what}: the failure was not reported exactly once')
+        return 'violation'
+    return f'contained:{nfail}'
+
+
+def host_args_error():
+    load_impl()
+    from bare_script.value import ValueArgsError  # pylint: disable=import-outside-toplevel,import-error
+    return ValueArgsError('arg', 1, 5)
+
+
+def message_cases():
+    cases = []
+    for sh in range(len(exception_shapes())):
+        for r in range(len(MSG_REACHES)):
+            for c in range(len(MSG_CONFIGS)):
+                for entry in ('exec', 'expr'):
+                    cases.append({'shape': sh, 'reach': r, 'config': c, 'entry': entry})
+    for c in range(len(MSG_CONFIGS)):
+        for entry in ('exec', 'expr'):
+            cases.append({'shape': -1, 'reach': 0, 'config': c, 'entry': entry})
+    return cases
+
+
+def fam_messages(arg):
+    acc = Acc('messages')
+    for case in arg:
+        acc.cases += 1
+        kind = check_messages(case, acc)
+        acc.outcome((case['shape'], case['reach'], case['config'], case['entry'], kind))
+        if kind.startswith('contained'):
+            acc.nontrivial += 1
+        if case['config'] == 0 and case['reach'] == 1 and case['shape'] in (0, 8, 11):
+            acc.sample({'exception': exception_shapes()[case['shape']][0], 'reach': MSG_REACHES[case['reach']], 'entry': case['entry'], 'outcome': kind})
+    return acc.result()
+
+
+# ----------------------------------------------------------------------------------------------------------------
 # Family pow_int (guarded)
 # ----------------------------------------------------------------------------------------------------------------
 
@@ -1274,6 +1404,11 @@ def families(tier):
                f'expression argument, failing host functions, re-raised runtime error, two that succeed) x {len(REACHES)} ways of reaching the function '
                f'(by name, alias variable, parameter, nested parameter, systemPartial, callback of arrayIndexOf / arraySort) + a bad include inside a '
                f'script function x {len(BAD_INCLUDE_REACHES)} reaches', expected=len(REACH_TARGETS) * len(REACHES) + len(BAD_INCLUDE_REACHES)),
+        Family('messages', fam_messages, split(message_cases(), 16),
+               f'{len(exception_shapes())} exception shapes raised by a host function (empty str(), multi-line, braces / percent signs, non-string args, '
+               f'100 kB, ValueArgsError) x {len(MSG_REACHES)} reaches (by name, as arrayIndexOf callback, inside a script function) x {len(MSG_CONFIGS)} '
+               f'debug/logFn configurations x execute_script/evaluate_expression, + the empty-message MemoryError of {MSG_LIBRARY}',
+               expected=len(exception_shapes()) * len(MSG_REACHES) * len(MSG_CONFIGS) * 2 + len(MSG_CONFIGS) * 2),
         Family('pow_int', fam_pow_int, [[c] for c in pows], f'{len(pows)} int ** int cases with astronomically large exact result (the pairs the family ops '
                f'delegates, x {len(CONTEXTS)} contexts, + 1 pure script), each in a forked child under a {POW_CPU_S} s CPU / {POW_MEM >> 20} MiB guard',
                expected=len(pows)),
@@ -1284,12 +1419,12 @@ def families(tier):
 
 
 _CHECKS = {'ops': check_ops, 'lib': check_lib, 'programs': check_programs, 'models': check_models, 'pow_int': check_pow_int, 'growth': check_growth, 'chains': check_chains,
-           'options': check_options, 'reach': check_reach}
+           'options': check_options, 'reach': check_reach, 'messages': check_messages}
 
 
 def replay(family, case):
     acc = Acc(family)
-    case = {k: v for k, v in case.items() if k not in ('labels', 'source', 'label', 'template', 'options', 'text', 'target', 'reach', 'failure')}
+    case = {k: v for k, v in case.items() if k not in ('labels', 'source', 'label', 'template', 'options', 'text', 'target', 'failure', 'exception', 'reached')}
     _CHECKS[family](case, acc)
     res = acc.result()
     return {'differs': bool(res['nviol'] or res['nknown']), 'violations': res['violations'] + res['known_violations']}
